@@ -43,13 +43,18 @@ func c20Setup() {
 }
 
 const (
-	pkgA = "p/a" // deps: d/x (recorded), s/k (HashSkip)
-	pkgB = "p/b" // deps: d/x
+	pkgA = "p/a" // deps: d/x, d/y (recorded), s/k (HashSkip)
+	pkgB = "p/b" // deps: d/z
+	pkgC = "p/c" // deps: d/x, d/z
 	pkgD = "d/x"
+	pkgY = "d/y"
+	pkgZ = "d/z"
 	pkgS = "s/k"
 )
 
-var c20Deps = map[string][]string{pkgA: {pkgD, pkgS}, pkgB: {pkgD}}
+// Different packages record different dependency lists of different lengths (a dependency shared by two packages,
+// one private to each): a mix-up between the entries of packages listed together becomes observable.
+var c20Deps = map[string][]string{pkgA: {pkgD, pkgY, pkgS}, pkgB: {pkgZ}, pkgC: {pkgD, pkgZ}}
 
 // c20World is the scripted environment of one history.
 type c20World struct {
@@ -69,7 +74,7 @@ func newC20World(tag string) *c20World {
 	os.MkdirAll(filepath.Join(dir, "ctl"), 0o755)
 	os.MkdirAll(filepath.Join(dir, "exp"), 0o755)
 	w := &c20World{dir: dir, epoch: map[string]int{}, invalid: map[string]bool{}}
-	for _, p := range []string{pkgA, pkgB, pkgD, pkgS} {
+	for _, p := range []string{pkgA, pkgB, pkgC, pkgD, pkgY, pkgZ, pkgS} {
 		w.epoch[p] = 1
 		w.writeEpoch(p, 1)
 		if d := c20Deps[p]; d != nil {
@@ -186,7 +191,9 @@ func (m *c20Model) record(w *c20World, p string) {
 	m.entries[p] = e
 }
 
-var c20Ops = []string{"prepare(A,B)", "find(A)", "find(B)", "bump(A)", "bump(D)", "delexp(A)", "fail-on", "fail-off", "save+load", "invalid(A)", "bump(S)"}
+var c20Ops = []string{"prepare(A,B,C)", "find(A)", "find(B)", "bump(A)", "bump(x)", "delexp(A)", "fail-on", "fail-off", "save+load", "invalid(A)", "bump(S)", "prepare(C,B,A)", "find(C)", "bump(y)", "bump(z)"}
+
+const c20NOps = 15
 
 // c20History runs one sequential history (op codes) against the cache and the model. Returns "", "" if it held.
 func c20History(ops []int, tag string, res *h.Result) (kind, detail string) {
@@ -267,10 +274,16 @@ func c20History(ops []int, tag string, res *h.Result) (kind, detail string) {
 		trace = append(trace, c20Ops[op])
 		var k, d string
 		switch op {
-		case 0:
+		case 0, 11:
 			before := impl.ListTimes()
 			var err error
-			guard(func() { err = impl.Prepare(w.dir, pkgA, pkgB) })
+			guard(func() {
+				if op == 0 {
+					err = impl.Prepare(w.dir, pkgA, pkgB, pkgC)
+				} else {
+					err = impl.Prepare(w.dir, pkgC, pkgB, pkgA)
+				}
+			})
 			if caught != nil {
 				k, d = "panic", fmt.Sprintf("Prepare panicked: %v", caught)
 				break
@@ -283,6 +296,7 @@ func c20History(ops []int, tag string, res *h.Result) (kind, detail string) {
 			} else if !failing {
 				model.record(w, pkgA)
 				model.record(w, pkgB)
+				model.record(w, pkgC)
 			}
 		case 1:
 			k, d = doFind(pkgA)
@@ -339,6 +353,12 @@ func c20History(ops []int, tag string, res *h.Result) (kind, detail string) {
 			w.mu.Unlock()
 		case 10:
 			w.bump(pkgS)
+		case 12:
+			k, d = doFind(pkgC)
+		case 13:
+			w.bump(pkgY)
+		case 14:
+			w.bump(pkgZ)
 		}
 		if k != "" {
 			return k, fmt.Sprintf("step %d: %s\nhistory: %s", step, d, ctx())
@@ -361,23 +381,28 @@ type c20Plan struct{ enum, rnd, files, conc, during int } // number of cases of 
 
 func c20PlanFor(tier string) c20Plan {
 	if tier == "thorough" {
-		// all histories of length <= 5 over 11 operations: 11+121+1331+14641+161051 = 177155
-		return c20Plan{enum: (177155 + c20EnumPerCase - 1) / c20EnumPerCase, rnd: 400, files: 120, conc: 400, during: 1}
+		// all histories of length <= 4 over 15 operations: 15+225+3375+50625 = 54240, plus 60000 sampled of length 5 and 6
+		return c20Plan{enum: (c20EnumAll + 60000 + c20EnumPerCase - 1) / c20EnumPerCase, rnd: 400, files: 120, conc: 400, during: 1}
 	}
 	return c20Plan{enum: 100, rnd: 20, files: 40, conc: 40, during: 1}
 }
 
+const (
+	c20EnumAll  = 15 + 225 + 3375 + 50625             // histories of length <= 4
+	c20EnumUpTo = c20EnumAll + 759375 + 11390625      // ... of length <= 6
+)
+
 func enumHistory(idx int) []int { // idx-th history in length-then-lexicographic order
-	n, l := 11, 1
+	n, l := c20NOps, 1
 	for idx >= n {
 		idx -= n
-		n *= 11
+		n *= c20NOps
 		l++
 	}
 	ops := make([]int, l)
 	for i := l - 1; i >= 0; i-- {
-		ops[i] = idx % 11
-		idx /= 11
+		ops[i] = idx % c20NOps
+		idx /= c20NOps
 	}
 	return ops
 }
@@ -388,7 +413,8 @@ func init() {
 		Level: "fault_enumeration",
 		Race:  true,
 		Rule: "four workloads against packages/cache with a stub `go` on PATH and a scripted PkgHash: (1) sequential histories over {prepare, find(A), find(B), bump(A), bump(shared dep), " +
-			"delete export file, listing fails/recovers, save+load into a new cache, HashInvalid toggle, bump of a HashSkip dependency} — thorough: ALL histories of length<=5 (177155) plus random ones to length 40; " +
+			"delete export file, listing fails/recovers, save+load into a new cache, HashInvalid toggle, bump of a HashSkip dependency} over three packages with different dependency lists (A: x y +skipped s; B: z; C: x z) listed together in two orders — " +
+			"thorough: ALL histories of length<=4 over 15 operations (54240) plus 60000 sampled of length 5-6 plus random ones to length 40; " +
 			"quick: seed-sampled histories of length<=6; every Find is compared with a reference model of the property statement (must re-list iff absent/changed/export missing; data stamp must equal the current " +
 			"fingerprint vector; failed re-list must return an error) and ListTimes deltas are checked; (2) cache-file faults: truncation at every byte, single-byte substitutions from {TAB,NL,digit,-}, dropped/duplicated lines, " +
 			"negative/huge counts — Load must not panic, must report every file that violates the documented grammar, and Find afterwards must serve current data; (3) concurrent histories (2-12 callers x 2 packages + one bumper) " +
@@ -432,9 +458,9 @@ func c20DuringListing() []h.Result {
 		bumped string // package bumped during the listing
 	}{
 		{"find(A)||bump(A) find(A)", false, pkgA, pkgA},
-		{"find(B)||bump(D) find(B)", false, pkgB, pkgD},
+		{"find(B)||bump(D) find(B)", false, pkgB, pkgZ},
 		{"prepare(A,B) bump(A) find(A)||bump(A) find(A)", true, pkgA, pkgA},
-		{"prepare(A,B) bump(D) find(B)||bump(D) find(B)", true, pkgB, pkgD},
+		{"prepare(A,B) bump(D) find(B)||bump(D) find(B)", true, pkgB, pkgZ},
 		{"find(A)||bump(S) find(A)", false, pkgA, pkgS},
 	}
 	for si, sc := range scen {
@@ -442,7 +468,7 @@ func c20DuringListing() []h.Result {
 		w := newC20World(fmt.Sprintf("d%d", si))
 		impl := cache.New(w.hash)
 		if sc.pre {
-			impl.Prepare(w.dir, pkgA, pkgB)
+			impl.Prepare(w.dir, pkgA, pkgB, pkgC)
 			w.bump(sc.bumped)
 		}
 		hold := filepath.Join(w.dir, "ctl", "hold")
@@ -523,14 +549,22 @@ func c20Enum(tier string, seed uint64, ci int) []h.Result {
 		var ops []int
 		if tier == "thorough" {
 			idx := ci*c20EnumPerCase + k
-			if idx >= 177155 {
+			if idx >= c20EnumAll+60000 {
 				break
+			}
+			if idx >= c20EnumAll { // sampled histories of length 5 and 6
+				r := h.NewRand(seed, 2006, uint64(idx))
+				idx = c20EnumAll + r.Intn(c20EnumUpTo-c20EnumAll)
 			}
 			ops = enumHistory(idx)
 		} else {
 			r := h.NewRand(seed, 20, uint64(ci), uint64(k))
-			// sample the space of histories of length <= 6: 11+...+11^6 = 1948716
-			ops = enumHistory(r.Intn(1948716))
+			// sample the space of histories of length <= 6 (short ones over-represented: half of the samples have length <= 4)
+			if r.Bool() {
+				ops = enumHistory(r.Intn(c20EnumAll))
+			} else {
+				ops = enumHistory(r.Intn(c20EnumUpTo))
+			}
 		}
 		out = append(out, c20One(ops, fmt.Sprintf("e%d_%d", ci, k)))
 	}
@@ -546,9 +580,9 @@ func c20Random(tier string, seed uint64, ci int) []h.Result {
 		for j := range ops {
 			// bias towards finds
 			if r.Chance(40) {
-				ops[j] = 1 + r.Intn(2)
+				ops[j] = []int{1, 2, 12}[r.Intn(3)]
 			} else {
-				ops[j] = r.Intn(11)
+				ops[j] = r.Intn(c20NOps)
 			}
 		}
 		out = append(out, c20One(ops, fmt.Sprintf("r%d_%d", ci, k)))
